@@ -62,16 +62,14 @@ def run(ctx):
     gen = os.path.join(LEAN, "PsycheModel", "Generated", "Keywords.lean")
     translator_error = None
     code_spellings = []
-    try:
-        funcs, disp = tk.main(REPO, gen)
-        code_spellings = ["".join(chr(c) for p, c in cs) for kind, n, cs, gs, k in tk.paths(funcs, disp) if k != "IdentifierToken"]
-    except Exception as ex:          # source left the translator's subset: keep the committed generated file, validate it completely
-        translator_error = "%s: %s" % (type(ex).__name__, ex)
-        ctx.log("translator failed:", translator_error)
-        from ..common import sh
-        sh(["git", "checkout", "--", os.path.relpath(gen, ROOT)], cwd=ROOT)
     proved = stages.lean_stage(ctx, "PsycheModel.Props.C17")
     stages.cxx_stage(ctx, "ndebug")
+    translator_error = ctx.translator_errors.get("keywords")
+    if translator_error:
+        ctx.log("translator failed:", translator_error)
+    else:
+        funcs, disp = tk.parse_keywords(os.path.join(REPO, "C/parser/Keywords.cpp"))
+        code_spellings = ["".join(chr(c) for p, c in cs) for kind, n, cs, gs, k in tk.paths(funcs, disp) if k != "IdentifierToken"]
 
     spell = sorted(set(spec_spellings()) | set(code_spellings))
     words = set()
